@@ -126,6 +126,17 @@ def _many_stems():
     return out
 
 
+def thousand_stems(k=1100):
+    """More than a thousand stems: k one-pair hairpins '(.)' followed by an H-type knot whose stems are single
+    pairs (stem indices have four digits; per-stem weights, names and tie-breakers meet their largest values)."""
+    pairs, pos = [], 1
+    for _ in range(k):
+        pairs.append((pos, pos + 2))
+        pos += 4
+    pairs += [(pos, pos + 4), (pos + 2, pos + 6)]
+    return f"hairpins{k}+single-pair-H-type", pos + 7, sorted(pairs)
+
+
 def hostile():
     out = list(HOSTILE) + _many_stems()
     # ladders needing many levels
